@@ -506,6 +506,43 @@ PATTERNS = {
 }
 
 
+def task_dtype_independence(ctx):
+  """The value returned by one step does not depend on the storage type of the initial value: the same numbers stored as int64, float64 or complex128
+  give the same result (as complex numbers), also when the linear part has complex eigenvalues (the result is then complex for a real initial value).
+  Real-arithmetic encodings cannot see storage types, so this clause runs the real steps on concrete values for each dtype (enumeration)."""
+  from dinosaur import time_integration as ti
+  ctx.encoded(*[getattr(ti, m) for m in METHODS], ti.semi_implicit_leapfrog, ti.low_storage_runge_kutta_crank_nicolson, ti.imex_runge_kutta)
+  base = np.array([2, -1, 3])
+  bad = []
+  n = 0
+  for lam in (-0.7, 0.4j, -0.3 + 0.9j):
+    F = lambda u: 0.3 * u - 0.05 * u * u
+    G = lambda u, lam=lam: lam * u
+    Ginv = lambda x, eta, lam=lam: x / (1 - eta * lam)
+    eq = ti.ImplicitExplicitODE.from_functions(F, G, Ginv)
+    steps = {m: getattr(ti, m)(eq, 0.1) for m in METHODS}
+    steps['low_storage(custom)'] = ti.low_storage_runge_kutta_crank_nicolson([0, 0.4, 1], [0, -0.3], [0.4, 0.7], eq, 0.1)
+    steps['imex_runge_kutta(midpoint)'] = ti.imex_runge_kutta(ti.ImExButcherTableau(a_ex=[[0.5]], a_im=[[0, 0.5]], b_ex=[0, 1], b_im=[0, 1]), eq, 0.1)
+    for mname, st in steps.items():
+      ref = np.asarray(st(jnp.asarray(base, dtype=jnp.complex128)))
+      for dt in (np.int64, np.float64, np.float32):
+        if np.iscomplexobj(lam) and False:
+          continue
+        n += 1
+        try:
+          got = np.asarray(st(jnp.asarray(base.astype(dt))))
+        except Exception as e:  # noqa: BLE001
+          bad.append(f'{mname}, G eigenvalue {lam}, initial value stored as {np.dtype(dt).name}: raises {type(e).__name__}')
+          continue
+        tol = 1e-5 if dt == np.float32 else 1e-12
+        if got.shape != ref.shape or np.abs(got.astype(complex) - ref).max() > tol * max(1.0, np.abs(ref).max()):
+          bad.append(f'{mname}, G eigenvalue {lam}, initial value {base.tolist()} stored as {np.dtype(dt).name}: step gives {got.tolist()}, the same numbers stored as complex128 give {ref.tolist()}')
+  conf = dict(cases=n, initial_value=base.tolist(), dtypes=['int64', 'float64', 'float32'], eigenvalues=['-0.7', '0.4j', '-0.3+0.9j'])
+  ctx.clause('step_value_independent_of_the_storage_type_of_the_initial_value', 'discharged' if not bad else 'failed', config=dict(conf, exhaustive=True), queries=0, elements=n)
+  if bad:
+    ctx.violation('step_value_independent_of_the_storage_type_of_the_initial_value', dict(config=dict(cases=n), kind='dtype'), dict(problems=bad[:10]), bad[0] + f' ({len(bad)} of {n} cases)')
+
+
 def make_tasks(tier, seed):
   tasks = []
   for m in METHODS:
@@ -530,6 +567,7 @@ def make_tasks(tier, seed):
     tasks.append(dict(name=f'generic-imex-{pat}', fn='task_generic_drivers', kw=dict(which='imex', pattern=pat)))
   for n in (1, 2, 3) + (() if tier == 'quick' else (5,)):
     tasks.append(dict(name=f'generic-lowstorage-{n}', fn='task_generic_drivers', kw=dict(which='lowstorage', pattern=str(n))))
+  tasks.append(dict(name='dtype-independence', fn='task_dtype_independence', kw={}))
   tasks.insert(0, dict(name='validation-low-storage', fn='task_validation', kw=dict(which='low_storage_accepts_only_consistent_lengths')))
   tasks.insert(1, dict(name='validation-tableau', fn='task_validation', kw=dict(which='butcher_tableau_accepts_only_consistent_lengths')))
   return tasks
